@@ -459,9 +459,15 @@ class CollisionArray:
             targetGrid.N - 1,
             targetGrid.N - 1,
         )
-        interpolatedData = np.array(source.polynomialData.evaluate(gridPoints, (1, 2)))[
-            ..., : targetGrid.N - 1, : targetGrid.N - 1
-        ].reshape(newShape)
+        # evaluate() returns the axes (points, particle1, particle2, j, k): move the
+        # points axis behind particle1 before splitting it into (pz, pp)
+        interpolatedData = np.moveaxis(
+            np.array(source.polynomialData.evaluate(gridPoints, (1, 2)))[
+                ..., : targetGrid.N - 1, : targetGrid.N - 1
+            ],
+            0,
+            1,
+        ).reshape(newShape)
 
         interpolatedPolynomial = Polynomial(
             interpolatedData,
